@@ -1,11 +1,45 @@
-"""Confirmation runner: consulted only AFTER the verifier failed an obligation, and only to produce a
-concrete failing input that replays on the real code.  It never decides a property on its own."""
+"""Confirmation / replay: consulted only AFTER the verifier failed an obligation, and only to produce or re-run a
+concrete failing input on the real code.  It never decides a property on its own."""
+import os
+import re
+import subprocess
+
+VERIF = os.path.dirname(os.path.dirname(os.path.abspath(__file__)))
 
 
 def find_input(pid, failures, build_dir):
+    # Kani failures carry their own counterexample (concrete playback); Verus gives none.
+    for f in failures:
+        if f.get("concrete"):
+            return f["concrete"]
     return None
 
 
 def replay(pid, j):
+    inp = j.get("input") or {}
+    if inp.get("kind") == "kani-concrete-playback":
+        kdir = os.path.join(VERIF, "kani")
+        test = inp["test"]
+        name = re.search(r"fn (kani_concrete_playback_\w+)", test).group(1)
+        body = "use crate::harnesses::*;\n" + test + "\n"
+        path = os.path.join(kdir, "src", "playback.rs")
+        keep = open(path).read()
+        open(path, "w").write(body)
+        env = dict(os.environ)
+        env["CARGO_NET_OFFLINE"] = "true"
+        env["CARGO_TARGET_DIR"] = os.path.join(VERIF, "build", "kani-target")
+        try:
+            p = subprocess.run(["cargo", "kani", "playback", "-Z", "concrete-playback", "--", name], cwd=kdir, env=env,
+                               capture_output=True, text=True, timeout=3600)
+        finally:
+            open(path, "w").write(keep)
+        out = p.stdout + p.stderr
+        print(out[-3000:])
+        if "could not compile" in out:
+            print("replay could not be built")
+            return 2
+        failed = "FAILED" in out or "panicked" in out
+        print("replay of %s on the real code: %s" % (inp.get("harness"), "assertion FAILS (violation reproduced)" if failed else "passes (not reproduced)"))
+        return 1 if failed else 0
     print("no replay runner for this obligation")
     return 1
